@@ -14,3 +14,4 @@ open GoRedis
 #print axioms C05_scan
 #print axioms C05_range_options
 #print axioms C05_zrangebyscore
+#print axioms C05_scan_invalid_utf8
